@@ -99,7 +99,9 @@ func NewBufioEntryReader(fileName string) (BufioEntryReader, error) {
 // Next detects if there is data to read.
 func (br *bufioEntryReader) Next() bool {
 	length, err := binary.ReadUvarint(br.r)
-	if err == io.EOF {
+	if err == io.EOF || err == io.ErrUnexpectedEOF {
+		// end of file, or a length header which the writer did not complete(it died while appending):
+		// a half-written tail entry is not an entry
 		return false
 	} else if err != nil {
 		br.err = err
@@ -114,7 +116,8 @@ func (br *bufioEntryReader) Next() bool {
 	br.content = br.content[:length]
 	// read content
 	n, err := io.ReadFull(br.r, br.content)
-	if err == io.EOF {
+	if err == io.EOF || err == io.ErrUnexpectedEOF {
+		// the content of the tail entry is not complete, same as above
 		return false
 	}
 	br.err = err
